@@ -223,6 +223,66 @@ func runC08(c *kit.Ctx) {
 // discoverersDetachOverlaps: shared by C08.R5 and C01.R2 (a replaced region must lose its connection,
 // or requests already holding it are sent under the dead region's name).
 func discoverersDetachOverlaps(c *kit.Ctx) {
+	// warming the cache up puts every region it looked up (except hbase:meta / the master pseudo-region)
+	if far := c.P.Func("", "client", "findAllRegions"); far != nil {
+		metaF, adminF := c.P.Field("", "client", "metaRegionInfo"), c.P.Field("", "client", "adminRegionInfo")
+		n := 0
+		for _, mu := range kit.Calls(far, hrpcRI+"MarkUnavailable") {
+			_ = mu
+		}
+		kit.Instrs(far, func(in ssa.Instruction) {
+			ph, ok := in.(*ssa.Phi)
+			if !ok || ph.Comment != "rangeindex" {
+				return
+			}
+			// the loop over what lookupAllRegions returned
+			overLookup := false
+			for _, r := range kit.Referrers(ph) {
+				if bo, ok := r.(*ssa.BinOp); ok && bo.Op == token.ADD {
+					if sl, ok := rangeOfIndex(bo); ok {
+						if ex, ok := kit.Root(sl).(*ssa.Extract); ok {
+							if call, ok := ex.Tuple.(*ssa.Call); ok && kit.CalleeName(call) == kit.M("", "*client", "lookupAllRegions") {
+								overLookup = true
+							}
+						}
+					}
+				}
+			}
+			if !overLookup {
+				return
+			}
+			n++
+			hdr := ph.Block()
+			var body *ssa.BasicBlock
+			if iff, ok := hdr.Instrs[len(hdr.Instrs)-1].(*ssa.If); ok {
+				body = kit.SuccOnTrue(iff)
+			}
+			if body == nil {
+				return
+			}
+			e := kit.PathFromBlock(body, kit.PathQuery{
+				Target: func(x ssa.Instruction) bool { return x.Block() == hdr },
+				Stop: func(x ssa.Instruction) bool {
+					cc, ok := x.(*ssa.Call)
+					return ok && kit.CalleeName(cc) == kit.M("", "*keyRegionCache", "put")
+				},
+				SkipEdge: func(from, to *ssa.BasicBlock) bool {
+					for _, f := range kit.EdgeFacts(from, to) {
+						if cmp, ok := kit.CanonCmp(f.Cond, f.Pol); ok && cmp.Op == token.EQL {
+							if (metaF != nil && (isLoadOfField(cmp.X, metaF) || isLoadOfField(cmp.Y, metaF))) || (adminF != nil && (isLoadOfField(cmp.X, adminF) || isLoadOfField(cmp.Y, adminF))) {
+								return true
+							}
+						}
+					}
+					return false
+				},
+			})
+			c.Check(e == nil, far, "every-found-region-is-put", firstPos(body), "every looked-up region goes through regions.put (which evicts what it overlaps)", "findAllRegions can skip regions.put for a looked-up region (e.g. because some cached region covers its start key): after a split or merge the stale regions stay in the cache and the new ones are never cached: "+c.BlockPath(e))
+		})
+		if n == 0 {
+			c.Unk(far, "every-found-region-is-put", far.Pos(), "findAllRegions no longer loops over the looked-up regions")
+		}
+	}
 	for _, nm := range []string{"findRegion", "findAllRegions", "establishRegion"} {
 		fn := c.Anchor("", "client", nm)
 		if fn == nil {
